@@ -80,11 +80,13 @@ class Key(PathElement):
 
   def __lt__(self, other: PathElement) -> bool:
     if type(self) is type(other):
-      if type(self.key) is type(other.key):
-        try:
-          return self.key < other.key
-        except TypeError:
-          pass  # Keys of this type have no order; fall back to their repr.
+      # `<` is only used for types on which it is a total order (for example,
+      # `<` on frozensets is the subset relation, under which most keys are
+      # neither smaller nor larger than each other).
+      if type(self.key) is type(other.key) and isinstance(
+          self.key, (int, float, str, bytes)
+      ):
+        return self.key < other.key
       # Keys can be of any (hashable) type; order keys of different types by
       # type name, so that paths of a dict with mixed keys can be sorted.
       return (str(type(self.key)), repr(self.key)) < (
